@@ -241,7 +241,21 @@ def generate_C02(rng, tier):
     yield from _raw_cases(rng, 150 if few else 3000)
 
 
+def _enc_only(line):
+    """rt line `bp64 L..` -> encode-only line `bp64_cap L..` (no capacity argument: nothing is decoded, so a
+    fault can only come from the encoder)"""
+    t = line.split(" ")
+    return t[0] + "_cap " + t[1] if t[0] in RT_APIS else line
+
+
 def generate_C03(rng, tier):
+    for line in _generate_C03(rng, tier):
+        yield line
+        if line.split(" ")[0] in RT_APIS:
+            yield _enc_only(line)
+
+
+def _generate_C03(rng, tier):
     few = tier == "quick"
     yield from _f06_worst()
     yield from _literal_arrays(rng)
@@ -380,7 +394,8 @@ def _mk_bound(api):
     def o(args, c):
         """C03: writes only inside the first MaxBytes(count) bytes, returned length <= bound"""
         if "fault" in c:
-            return "fault=" + c["fault"]
+            # only the encode-only form attributes a crash to the encoder
+            return ("fault=" + c["fault"] + " in the encoder") if (api in CAP_APIS and len(args) == 1) else None
         if int(c["n"]) > int(c["bound"]):
             return "encoder returned %s > varintBP128MaxBytes = %s" % (c["n"], c["bound"])
         if c["guard"] != "ok":
@@ -405,9 +420,9 @@ def _mk_cap(api):
         if "fault" in c:
             return "fault=" + c["fault"]
         v = _L(args[0])
-        cap = int(args[1])
-        if not v or "dn" not in c:
+        if len(args) < 2 or not v or "dn" not in c:
             return None
+        cap = int(args[1])
         dn = int(c["dn"])
         if dn > cap:
             return "decoder returned %d > capacity %d" % (dn, cap)
@@ -425,7 +440,7 @@ def _mk_cap(api):
 def o_raw(args, c):
     """C13 on arbitrary streams: only the capacity part (the stream is not an encoder output)"""
     if "fault" in c:
-        return "fault=" + c["fault"] + " (generator pads every stream: no over-read expected)"
+        return None  # an over-read on a non-encoder stream is not a C13 matter (the correspondence reports it)
     cap = int(args[1])
     if int(c["dn"]) > cap or c["oguard"] != "ok" or c["oframe"] != "ok":
         return "decoder exceeded capacity %d (dn=%s frame=%s guard=%s)" % (cap, c["dn"], c["oframe"], c["oguard"])
@@ -498,6 +513,8 @@ def classify(case, m):
             return "trivial"
         k = "n<128" if n < 128 else "n=128k" if n % 128 == 0 else "n=128k+1" if n % 128 == 1 else "n>128"
         w = m.get("mwidth")
+        if api in CAP_APIS and len(t) < 3:
+            return "%s/%s/enc-only" % (api, k)
         if api in CAP_APIS:
             cap = int(t[2])
             return "%s/%s/%s" % (api, k, "cap=n" if cap == n else "cap=0" if cap == 0 else
@@ -526,7 +543,7 @@ def search(rng, divergent_cases):
             for k in (1, 2, 127, 128, 129, len(v) - 1):
                 if 0 < k < len(v):
                     yield " ".join([t[0], lst(v[:k])] + t[2:])
-            if t[0] in CAP_APIS:
+            if t[0] in CAP_APIS and len(t) > 2:
                 for d in (-1, 1):
                     if 0 <= int(t[2]) + d <= len(v):
                         yield "%s %s %d" % (t[0], t[1], int(t[2]) + d)
